@@ -10,9 +10,9 @@ def run(ctx):
     npaths = nsteps = 0
     seen = set()
     if binary:
-        runs = [("E1", "InitsAll", 1, None), ("R", "InitsAll", 1000, ("num=%d" % (1500 if T else 400), 30))]
+        runs = [("E1", "InitsAll", 1, None), ("R", "InitsAll", 1000, ("num=%d" % (60 if T else 30), 30))]
         if T:
-            runs[1:1] = [("E2", "Inits1", 2, None), ("E3", "InitsPrep", 2, None)]
+            runs[1:1] = [("E2", "Inits1", 2, None), ("E3", "Inits2", 2, None)]
         for tag, inits, max_ops, sim in runs:
             mc = oi.tlc_export(ctx, "OntId_%s.cfg" % tag, inits, max_ops, simulate=sim[0] if sim else None, depth=sim[1] if sim else None)
             if not mc:
